@@ -253,6 +253,10 @@ def check(world, plans, results):
                 v.fail("disturbed", "task %d: result log differs from the solo run" % t)
             break
     leak_check(v, multi, "multi-thread run")
+    # process-wide state that belongs to the application: left as it was by every solo run, so also by the joint run
+    solo_umasks = set(r.get("umask_after") for r in results[1:1 + nt])
+    if solo_umasks == {0o22} and multi.get("umask_after") != 0o22:
+        v.fail("disturbed:umask", "after the joint run the process umask is %#o, after every solo run it is 022" % multi.get("umask_after"))
     sc = multi.get("sched", {})
     if len(results) > nt + 1:
         tres = results[-1]
